@@ -101,10 +101,22 @@ class Engine:
         if isinstance(cond, bool):
             return cond
         t0 = time.time()
+        neg = z3.Not(SBool.lift(cond))
         self.solver.push()
-        self.solver.add(z3.Not(SBool.lift(cond)))
+        self.solver.add(neg)
         r = self.solver.check()
         self.solver.pop()
+        if r == z3.unknown:
+            # the answer decides which encoding rule applies: do not let a busy machine change it -- second attempt
+            # with the other arithmetic core and a longer budget
+            s2 = z3.Solver()
+            s2.set("arith.solver", 2)
+            s2.set("timeout", 20000)
+            for a in self.solver.assertions():
+                s2.add(a)
+            s2.add(neg)
+            r = s2.check()
+            self.stats["provable_retries"] = self.stats.get("provable_retries", 0) + 1
         self.feas_checks += 1
         self.feas_time += time.time() - t0
         return r == z3.unsat
@@ -311,15 +323,19 @@ def _next_oid() -> int:
     return _obj_counter[0] + 1
 
 
-def _shape(v: Any) -> Any:
+def _shape(v: Any, first_oid: int | None = None) -> Any:
     if isinstance(v, (SInt, int)) and not isinstance(v, bool):
         return "int"
     if isinstance(v, (SBool, bool)):
         return "bool"
     if isinstance(v, tuple):
-        return ("tuple",) + tuple(_shape(x) for x in v)
+        return ("tuple",) + tuple(_shape(x, first_oid) for x in v)
     if isinstance(v, SObj):
-        return ("obj", v.cls, tuple(sorted((k, _shape(x)) for k, x in v.fields.items())))
+        if first_oid is not None and v.oid < first_oid:
+            # an object that existed before the call keeps its identity: outcomes returning different pre-existing
+            # objects are never merged into a phantom copy (`x is y` must keep working on the result)
+            return ("ext", v.oid)
+        return ("obj", v.cls, tuple(sorted((k, _shape(x, first_oid)) for k, x in v.fields.items())))
     if isinstance(v, ExcValue):
         return ("exc", v.etype, v.site if v.etype in (AssertionError,) else "")
     if isinstance(v, SOpaque):
@@ -353,6 +369,8 @@ def _merge_values(pairs: list[tuple[Any, Any]]) -> Any:
     if isinstance(v0, tuple):
         return tuple(_merge_values([(c, v[i]) for c, v in pairs]) for i in range(len(v0)))
     if isinstance(v0, SObj):
+        if all(v is v0 for _, v in pairs):
+            return v0
         fields = {k: _merge_values([(c, v.fields[k]) for c, v in pairs]) for k in v0.fields}
         return SObj(v0.cls, fields, owner=v0.owner, tag=v0.tag)
     if isinstance(v0, ExcValue):
@@ -374,7 +392,7 @@ def _group(outcomes: list[Outcome], first_oid: int, dropped: bool = True) -> lis
         if o.writes:
             k: Any = ("w", i)
         else:
-            k = (o.kind, _shape(o.value))
+            k = (o.kind, _shape(o.value, first_oid))
         if k not in buckets:
             buckets[k] = []
             order.append(k)
